@@ -104,13 +104,35 @@ def _close(a, b):
 
 
 def _other_graph(rng):
+    """records and uses an unrelated graph; its nodes carry keyword arguments, shapes and indices that differ from those of
+    the catalogue programs (anything shared between nodes of different graphs would be disturbed by it)"""
+    for k in rng.permutation(4):
+        _other_graph_k(rng, int(k))
+
+
+def _other_graph_k(rng, k):
     cg = CGraph()
-    z = Function(rng.normal(size=2))
-    w = algopy.sum(algopy.tan(0.3 * z) * algopy.exp(z)) + z[0] * z[1]
+    if k == 0:
+        z = Function(rng.normal(size=2))
+        w = algopy.sum(algopy.tan(0.3 * z) * algopy.exp(z)) + z[0] * z[1]
+        shp = (2,)
+    elif k == 1:
+        z = Function(rng.normal(size=(2, 4)))
+        f1 = algopy.fft.fft(z, axis=1); f2 = algopy.fft.ifft(z * z, axis=-2)
+        w = algopy.sum(algopy.real(f1) * algopy.imag(f1)) + algopy.sum(algopy.real(f2))
+        shp = (2, 4)
+    elif k == 2:
+        z = Function(rng.normal(size=(3, 2)))
+        w = algopy.sum(algopy.sum(z * z, axis=1) * algopy.sum(z, axis=-1)) + algopy.sum(algopy.reshape(z, (2, 3))[1, ::-1])
+        shp = (3, 2)
+    else:
+        z = Function(rng.normal(size=(3, 3)))
+        w = algopy.sum(algopy.symvec(z, 'L') * 2.0) + algopy.sum(algopy.tile(z[0], (2, 1))) + algopy.trace(algopy.dot(z, z.T))
+        shp = (3, 3)
     cg.trace_off()
     cg.independentFunctionList = [z]; cg.dependentFunctionList = [w]
-    cg.gradient(rng.normal(size=2))
-    cg.pushforward([UTPM(rng.normal(size=(3, 2, 2)))])
+    cg.gradient(rng.normal(size=shp))
+    cg.pushforward([UTPM(rng.normal(size=(3, 2) + shp))])
     cg.pullback([UTPM(rng.normal(size=(3, 2)))])
 
 
@@ -261,6 +283,8 @@ def run_case(ctx, case):
     hist.append(('forward', 'v', x)); fw = ('v', x)
     for _ in range(2):
         hist.append(('pullback', 'v', rng.normal(size=(D, P, m))))
+    hist.append(('other',))                # every history records and uses unrelated graphs at least once, followed by further calls
+    L = max(L, 6)
     while len(hist) < L:
         r = rng.random()
         if r < 0.12 and fw is not None:
